@@ -781,12 +781,71 @@ func c10Meek(c *harness.Ctx) {
 	ending = true
 }
 
+// c10Obfs2PadLen: a well-formed obfs2 hello announcing an absurd padding
+// length must not make the endpoint reserve memory for it or wait for it.
+func c10Obfs2PadLen(c *harness.Ctx) {
+	t := c.T
+	targets := c10Targets(c)
+	role := t.Draw("role", 2)
+	tg := targets[4+role] // obfs2 client / server
+	link := c.Net.NewLink("peer", "tgt")
+	link.AB.Policy = simnet.ChunkBurst
+	padField := []uint32{8193, 1 << 20, 1 << 26, 1 << 28}[t.Draw("padlen", 4)]
+	c.Info["flood"] = fmt.Sprintf("obfs2 %s: valid hello announcing PADLEN %d", tg.role, padField)
+	c.Feature("obfs2-oversize-padlen")
+	var ms runtime.MemStats
+	heap := func() uint64 {
+		runtime.GC()
+		runtime.ReadMemStats(&ms)
+		return ms.HeapAlloc
+	}
+	var hs c10Call
+	before := heap()
+	c.S.Go("tgt/handshake", func() {
+		hs.started = c.S.Now()
+		conn, err := tg.open(link.B)
+		hs.err, hs.done, hs.finished = err, true, c.S.Now()
+		if err == nil {
+			conn.Close()
+		}
+	})
+	var peak uint64
+	c.S.Go("peer/hello", func() {
+		seed := make([]byte, 16)
+		c.Rand.Fill("ref.seed", seed)
+		link.A.Write(obfsref.O2Hello(role == 1, seed, make([]byte, 100), obfsref.O2Magic, padField))
+		c.S.Sleep(time.Second)
+		peak = heap()
+		buf := make([]byte, 4096)
+		for {
+			if _, err := link.A.Read(buf); err != nil {
+				return
+			}
+		}
+	})
+	c.S.Run(func() bool { return hs.done && peak != 0 }, 2*time.Minute)
+	c.Reached, c.Nontrivial = true, true
+	if growth := int64(peak) - int64(before); growth > 4<<20 {
+		c.Violate("C10/unbounded-buffering", "obfs2 %s: a 124-byte hello announcing PADLEN %d made the heap grow by %d KiB", tg.role, padField, growth>>10)
+		return
+	}
+	if !hs.done {
+		c.Violate("C10/handshake-call-never-returns", "obfs2 %s with PADLEN %d: handshake still pending after 2 virtual minutes", tg.role, padField)
+	} else if hs.err == nil {
+		c.Violate("C10/oversize-padlen-accepted", "obfs2 %s accepted PADLEN %d", tg.role, padField)
+	}
+}
+
 // c10Flood: bounded buffering.  The peer pushes megabytes at an endpoint
 // whose application reads slowly or not at all; heap growth (after GC, while
 // the connection is live) must stay far below the flood.
 func c10Flood(c *harness.Ctx) {
 	t := c.T
 	targets := c10Targets(c)
+	if t.Draw("obfs2padlen", 6) == 5 {
+		c10Obfs2PadLen(c)
+		return
+	}
 	which := t.Draw("which", 9)
 	hsTarget := -1
 	if which >= 4 {
